@@ -31,20 +31,20 @@ fn scenario(c: &Case, plan: ChunkPlan, settle_between: bool) -> Scenario {
     let mut ev = vec![];
     let ok = Deco::default();
     for _ in 0..c.subs {
-        ev.push(Ev::Start { h: 0, kind: OpKind::Sub(0), settle: false });
+        ev.push(Ev::Start { h: 0, kind: OpKind::Sub(0), settle: false, solo: false });
         ev.push(Ev::In(Inbound::Ack { sel: 0, deco: ok }));
     }
     for _ in 0..c.subs {
         ev.push(Ev::MakeStream { sel: 0 });
     }
     for _ in 0..c.pings {
-        ev.push(Ev::Start { h: 0, kind: OpKind::Ping, settle: false });
+        ev.push(Ev::Start { h: 0, kind: OpKind::Ping, settle: false, solo: false });
     }
     for _ in 0..c.pub1 {
-        ev.push(Ev::Start { h: 0, kind: OpKind::Pub1, settle: false });
+        ev.push(Ev::Start { h: 0, kind: OpKind::Pub1, settle: false, solo: false });
     }
     for _ in 0..c.pub2 {
-        ev.push(Ev::Start { h: 0, kind: OpKind::Pub2, settle: false });
+        ev.push(Ev::Start { h: 0, kind: OpKind::Pub2, settle: false, solo: false });
     }
     ev.push(Ev::Burst { items: c.items.clone(), plan, settle_between });
     if c.eof_after {
@@ -64,7 +64,7 @@ fn item() -> BoxedStrategy<Inbound> {
     ];
     prop_oneof![
         6 => (0u8..3, any::<bool>(), any::<bool>(), sel(), plen).prop_map(|(qos, dup, retain, s, payload_len)| {
-            Inbound::Publish { qos, dup, retain, pid: 0, target: Target::Sub(s), payload_len }
+            Inbound::Publish { qos, dup, retain, pid: 0, target: Target::Sub(s), payload_len, props: 0 }
         }),
         5 => (sel(), deco()).prop_map(|(sel, deco)| Inbound::Ack { sel, deco }),
         1 => (1u16..9).prop_map(|pid| Inbound::Pubrel { pid, known: false }),
@@ -137,7 +137,7 @@ impl Property for C03 {
             pub2: 1,
             items: vec![
                 Inbound::Ack { sel: 0, deco: short },
-                Inbound::Publish { qos: 1, dup: false, retain: false, pid: 0, target: Target::Sub(0), payload_len: 0 },
+                Inbound::Publish { qos: 1, dup: false, retain: false, pid: 0, target: Target::Sub(0), payload_len: 0, props: 0 },
             ],
             plan: ChunkPlan::Whole,
             settle_between: false,
@@ -185,7 +185,7 @@ impl Property for C03 {
                     items: vec![
                         Inbound::Ack { sel: 0, deco: short },
                         Inbound::BigPublish { kib },
-                        Inbound::Publish { qos: 1, dup: false, retain: false, pid: 0, target: Target::Sub(0), payload_len: 3 },
+                        Inbound::Publish { qos: 1, dup: false, retain: false, pid: 0, target: Target::Sub(0), payload_len: 3, props: 0 },
                     ],
                     plan,
                     settle_between: sb,
